@@ -1,16 +1,67 @@
-(* C04 (PLACEHOLDER, to be replaced by the real theorems): the result of the one-shot
-   hash does not depend on the platform: any two platforms satisfying PlatformOK give the
-   same result (both equal the specification, Proofs/C01P.v). *)
+(* C04: results do not depend on SIMD level, build flavour or feature set.
+   Statements only; proofs in Proofs/C04P.v (corollaries of C01/C02/C03/C09) and
+   Proofs/KernelsP.v (PlatformOK of the modelled kernels).  A "platform" is the record
+   (SIMD degree, MAX_SIMD_DEGREE, four kernels); PlatformOK says the kernels equal the
+   portable ones on their domain and the degree is a power of two <= MAX_SIMD_DEGREE <= 16. *)
 From Coq Require Import NArith List Bool.
-From V Require Import Base.Res Base.Word Spec.Compress Spec.Tree Spec.Blake3 Model.Portable Model.Platform Model.RsWide Proofs.FormulasP Proofs.C01P gen.GenFormulas.
+From V Require Import Base.Res Base.Word Spec.Tree Spec.Blake3 Model.Platform Model.Kernels Model.RsChunk Model.RsWide
+  Model.RsHasher Model.RsXof Model.Machine Proofs.KernelsP Proofs.XofP Proofs.IoP Proofs.HasherP Proofs.C02P Proofs.C04P.
 Import ListNotations.
 Open Scope N_scope.
 
-Theorem C04_hash_platform_independent : forall p q, PlatformOK p -> PlatformOK q -> forall input,
-  len input < 2 ^ 64 -> rs_hash p input = rs_hash q input.
+Theorem C04_hash : forall p1 p2 input, PlatformOK p1 -> PlatformOK p2 -> len input < 2 ^ 64 ->
+  rs_hash p1 input = rs_hash p2 input.
+Proof. exact hash_platform_independent. Qed.
+
+Theorem C04_keyed_hash : forall p1 p2 key input, PlatformOK p1 -> PlatformOK p2 -> length key = 32%nat -> len input < 2 ^ 64 ->
+  rs_keyed_hash p1 key input = rs_keyed_hash p2 key input.
+Proof. exact keyed_hash_platform_independent. Qed.
+
+Theorem C04_derive_key : forall p1 p2 ctx material, PlatformOK p1 -> PlatformOK p2 ->
+  len ctx < 2 ^ 64 -> len material < 2 ^ 64 -> rs_derive_key p1 ctx material = rs_derive_key p2 ctx material.
+Proof. exact derive_key_platform_independent. Qed.
+
+Theorem C04_histories : forall p1 p2 K F pn1 pn2 m ops hs1 hs2 rs1 rs2 vs1 vs2 abs obs,
+  PlatformOK p1 -> PlatformOK p2 -> length K = 8%nat ->
+  Forall2 (InvS K F 0) hs1 abs -> Forall2 (InvS K F 0) hs2 abs -> arun_h K F abs ops = Some obs ->
+  fst (run_ops p1 pn1 m K F (mkState hs1 rs1 vs1) (map hop_op ops) []) =
+  fst (run_ops p2 pn2 m K F (mkState hs2 rs2 vs2) (map hop_op ops) []).
+Proof. exact history_platform_independent. Qed.
+
+Theorem C04_extended_output : forall p1 p2 ops r1 r2 o pos obs,
+  PlatformOK p1 -> PlatformOK p2 -> Rd r1 o pos -> Rd r2 o pos -> pos <= max_pos -> arun o pos ops = Some obs ->
+  rrun p1 r1 ops = rrun p2 r2 ops.
+Proof. exact reader_platform_independent. Qed.
+
+Theorem C04_subtree_cvs : forall p1 p2 K F c0 pieces,
+  PlatformOK p1 -> PlatformOK p2 -> length K = 8%nat ->
+  c0 < 2 ^ 54 -> 0 < len (concat pieces) -> len (concat pieces) <= 1024 * lim_of c0 -> len (concat pieces) < 2 ^ 64 ->
+  exists h1 h2 cv, updates p1 (fresh K F c0) pieces = Ok h1 /\ updates p2 (fresh K F c0) pieces = Ok h2 /\
+                   finalize_non_root p1 h1 = Ok cv /\ finalize_non_root p2 h2 = Ok cv.
+Proof. exact subtree_cv_platform_independent. Qed.
+
+(* the hypothesis holds for every modelled instruction-set level (kernel algorithms of C05)
+   and for the portable kernels at every degree / MAX_SIMD_DEGREE the build scripts can produce *)
+Theorem C04_platforms_ok :
+  PlatformOK sse2_platform /\ PlatformOK sse41_platform /\ PlatformOK avx2_platform /\ PlatformOK avx512_platform /\
+  PlatformOK sse41_ffi_platform /\ PlatformOK avx2_ffi_platform /\
+  PlatformOK (sim_platform 1 16) /\ PlatformOK (sim_platform 1 8) /\ PlatformOK (sim_platform 1 1) /\
+  PlatformOK (sim_platform 4 8) /\ PlatformOK (sim_platform 8 8).
 Proof.
-  intros p q Hp Hq input H.
-  rewrite (rs_hash_spec p Hp input H), (rs_hash_spec q Hq input H). reflexivity.
+  split; [exact sse2_platform_ok|]. split; [exact sse41_platform_ok|]. split; [exact avx2_platform_ok|].
+  split; [exact avx512_platform_ok|]. split; [exact sse41_ffi_platform_ok|]. split; [exact avx2_ffi_platform_ok|].
+  repeat split; apply sim_platform_ok; (reflexivity || (intro H; discriminate H)).
 Qed.
 
-Print Assumptions C04_hash_platform_independent.
+Example C04_nonvacuous :
+  let input := map (fun i => N.of_nat i mod 251) (seq 0 5000) in
+  rs_hash sse41_platform input = rs_hash avx512_platform input /\ rs_hash avx2_platform input = rs_hash (sim_platform 1 16) input.
+Proof. vm_compute. split; reflexivity. Qed.
+
+Print Assumptions C04_hash.
+Print Assumptions C04_keyed_hash.
+Print Assumptions C04_derive_key.
+Print Assumptions C04_histories.
+Print Assumptions C04_extended_output.
+Print Assumptions C04_subtree_cvs.
+Print Assumptions C04_platforms_ok.
